@@ -169,7 +169,7 @@ theorem hdr_vendorBlocks (f : AngFmt) (ps : List PhaseInfo) (xs : List PhaseX)
     simp only [vendorBlocks, hdrIds_append, hdrNames_append, hdrFormulas_append, hdrSyms_append,
       hdrLattices_append, h1, h2, h3, h4, h5]
     cases f <;>
-      simp [vendorBlock, hdrIds, hdrNames, hdrFormulas, hdrSyms, hdrLattices, hmat]
+      simp [vendorBlock, hdrIds, hdrNames, hdrFormulas, hdrSyms, hdrLattices, hmat, joinSp]
 
 theorem zipPhases_vendor (ids : List Nat) (f : AngFmt) (ps : List PhaseInfo) (xs : List PhaseX)
     (h : List.Forall₂ (BlockOK f) ps xs) (hl : ids.length = ps.length) :
